@@ -27,7 +27,7 @@ META = {
             "exhaustive within depth 3 in the quick tier and depth 4 in the thorough tier.",
 }
 
-LEVELS = [("let", ("x",)), ("let", ("y",)), ("let", ("x", "y")), ("fn",), ("defn",), ("later", "x"), ("lfor", "x"), ("let2", "x"), ("lforx", "x")]
+LEVELS = [("let", ("x",)), ("let", ("y",)), ("let", ("x", "y")), ("fn",), ("defn",), ("later", "x"), ("lfor", "x"), ("let2", "x"), ("lforx", "x"), ("lfor2x", "x")]
 PRE = [(), (SETV("x"),), (LOG("x"),)]
 POST = [(LOG("x"),), (LOG("x"), LOG("y")), (SETV("x"), LOG("x"))]
 INNER = [(LOG("x"), LOG("y")), (SETV("x"), LOG("x")), (LOG2("x"), SETV("y"), LOG("y")), (SETV("y"), SETV("x"), LOG("x"), LOG("y"))]
@@ -126,7 +126,7 @@ def _shape(body):
             for i in range(5):
                 tag = tag.replace(f"let[x,c{i},x]", "let[x,closure,x]")
             out.append(tag + ">" + _shape(sub))
-        elif t[0] in ("lfor", "lforx"):
+        elif t[0] in ("lfor", "lforx", "lfor2x"):
             out.append(t[0])
     return "+".join(out)
 
